@@ -169,6 +169,7 @@ func (fv *FnV) storeAt(st *State, p *Ptr, t types.Type, v string, pos token.Pos)
 		fv.frameWrite(st, k, p.ref, pos)
 		fv.heapSet(st, k, sto(fv.heapGet(st, k), p.ref, v))
 	default:
+		fv.publishedWrite(st, p.ref, pos)
 		k := g.compElem(p.elemT)
 		h := fv.heapGet(st, k)
 		old := sel(sel(h, p.ref), p.idx)
@@ -395,6 +396,7 @@ func (fv *FnV) doInstr(st *State, ins ssa.Instruction) error {
 				fv.emit(st, "A", "mapstore."+cl.Label+":"+fv.siteText(ins.Pos(), "mapstore"), cl.Props, t, "holds for the map entry stored here: "+cl.Text, ins.Pos())
 			}
 		}
+		fv.notePublished(ins)
 		fv.mapStore(st, mt, m, fv.term(fv.val(ins.Key)), fv.term(fv.val(ins.Value)), ins.Pos())
 	case *ssa.Range:
 		fv.vals[ins] = &SV{v: fv.val(ins.X).v, typ: ins.X.Type()}
